@@ -4,7 +4,7 @@ from __future__ import annotations
 import ast
 from typing import Dict, List, Optional, Set
 
-from .. import q
+from .. import memo, q
 from ..boolterm import head_name
 from ..core import AnchorError, Ctx, FuncInfo, dotted, guard_facts, norm, returns_or_raises_everywhere, walk_no_nested
 from ..rewrite import check_arity, check_total
@@ -46,6 +46,7 @@ DEST_EXEMPT = {
 
 def run(ctx: Ctx):
     repo = ctx.repo
+    memo.check_memo_keys(ctx, ("compiler.", "boolopt.", "ast2logic.", "qlassfun."))
     ic = repo.cls(IC)
     ce = ic.methods.get("compile_expr")
     if ce is None:
